@@ -3031,7 +3031,7 @@ class Entity(MutableMapping[str, str]):
             return
         key = key.casefold()
         if key == 'targetname':
-            _remove_copyset(self.map.by_target, self._keys.get('targetname', None), self)
+            _remove_copyset(self.map.by_target, self['targetname'].casefold() or None, self)
             self.map.by_target[None].add(self)
 
         if key == 'classname':
